@@ -3,6 +3,7 @@
 package actor
 
 import (
+	"errors"
 	"time"
 
 	"github.com/kercylan98/vivid"
@@ -72,7 +73,7 @@ func (n *vhNet) pump() {
 	vrtAssert(false, "net-terminates")
 }
 
-var vhC15Ops = []string{"tell", "kill-immediate", "kill-poison", "watch", "ping", "ask-reply", "pipeto", "unwatch", "watch-same-path-two-systems"}
+var vhC15Ops = []string{"tell", "kill-immediate", "kill-poison", "watch", "ping", "ask-reply", "pipeto", "unwatch", "watch-same-path-two-systems", "pipeto-failure"}
 
 // VH_C15_remote_ops: param "op" selects the operation; the same scenario is run
 // with the target in the same system ("local") and in the other system
@@ -87,10 +88,13 @@ func VH_C15_remote_ops() {
 		if u, ok := m.(*vhUser); ok && len(u.Payload) == 1 && u.Payload[0] == 9 {
 			ctx.Reply(&vhUser{Payload: []byte{10}})
 		}
+		if u, ok := m.(*vhUser); ok && len(u.Payload) == 1 && u.Payload[0] == 8 {
+			ctx.Reply(errors.New("boom")) // a failure that is not a *vivid.Error
+		}
 	}
 	vhLog = nil
 	var t *Context
-	if remote {
+	if remote && op != "pipeto-failure" {
 		t = n.b.spawn(n.b.root, "target", ta)
 	} else {
 		t = n.a.spawn(n.a.root, "target", ta)
@@ -216,6 +220,39 @@ func VH_C15_remote_ops() {
 				got++
 				r, isU := pr.Message.(*vhUser)
 				vrtAssert(pr.Error == nil && isU && len(r.Payload) == 1 && r.Payload[0] == 10, "pipeto-forwards-the-reply")
+			}
+		}
+		vrtAssert(got == 1, "pipeto-forwards-exactly-once")
+	case "pipeto-failure":
+		// the piped request fails (the local target answers with a plain error, or
+		// nobody answers before the timeout); the forwarder - local or on the
+		// other system - is told the FAILURE
+		plain := vrtBool()
+		var id string
+		if plain {
+			id = c.PipeTo(ref, &vhUser{Payload: []byte{8}}, vivid.ActorRefs{fref}, time.Minute)
+			vrtReach("plain-error")
+		} else {
+			id = c.PipeTo(ref, &vhUser{Payload: []byte{7}}, vivid.ActorRefs{fref}, time.Minute)
+			vrtReach("timeout")
+		}
+		n.pump()
+		vrtYield()
+		if !plain {
+			vrtAdvance(2 * time.Minute)
+			vrtYield()
+		}
+		n.pump()
+		vrtYield()
+		n.pump()
+		got := 0
+		for _, m := range fa.seen {
+			if pr, ok := m.(*vivid.PipeResult); ok && pr.Id == id {
+				got++
+				vrtAssert(pr.Error != nil && pr.IsError(), "pipeto-forwards-the-failure")
+				if !plain && pr.Error != nil {
+					vrtAssert(errors.Is(pr.Error, vivid.ErrorFutureTimeout), "pipeto-forwards-the-failure")
+				}
 			}
 		}
 		vrtAssert(got == 1, "pipeto-forwards-exactly-once")
